@@ -10,6 +10,7 @@ import (
 	"fmt"
 	"io"
 	"log"
+	"math"
 	"strconv"
 	"sync"
 	"time"
@@ -292,6 +293,12 @@ func (tdsChan *Channel) handleSpecialPackage(pkg Package) (bool, error) {
 				if err != nil {
 					return false, fmt.Errorf("error parsing new packet size '%s' to int: %w",
 						member.NewValue, err)
+				}
+				// The packet size must leave room for data after the
+				// header and fit the 16 bit length of the packet header.
+				if packSize <= PacketHeaderSize || packSize > math.MaxUint16 {
+					return false, fmt.Errorf("invalid new packet size %d: must be greater than %d and at most %d",
+						packSize, PacketHeaderSize, math.MaxUint16)
 				}
 				tdsChan.tdsConn.packetSize = packSize
 			}
